@@ -49,6 +49,16 @@ def run(res, tier, seed):
         s, _ = prog.program(rng, sloppy=rng.choice([0, 0.2]), multi_ret=False)
         srcs.append(s)
     reqs = [yaml_req(s) for s in srcs]
+    # programs cut into include trees: the nodes of an included file come after the nodes written before the
+    # directive and before the ones behind it - whatever order a dump lists them in, every index in it must
+    # mean the same node after the reload
+    from props.c15 import split_tree
+    for s in list(srcs[-(12 if tier == "quick" else 120):]):
+        files, _ = split_tree(rng, s.rstrip("\n").split("\n"))
+        if len(files) >= 2:
+            fl = [("base.s", "\n".join(files["base.s"]) + "\n")] + [(k, "\n".join(v) + "\n") for k, v in files.items() if k != "base.s"]
+            srcs.append(s)
+            reqs.append("yaml %d %s" % (len(fl), " ".join(hx(n_) + " " + hx(t_) for n_, t_ in fl)))
     out = run_lines_isolated(RVH_DEBUG, reqs, chunk=50)
     # the `yaml` operation prints the canonical trace of the same graph object it dumps
     facts = [[l for l in blk if l.startswith(("CFG ", "FACT ", "CFG.FUNC"))] for blk in out]
